@@ -137,7 +137,7 @@ def run(tier="quick"):
     if outs:
         n2, nund2, _s2 = run_cap(chk, prog, outs, rule="B2", noreturn=NORETURN, kinds={"lower", "upper", "null", "count", "freed"})
         nund += nund2
-    chk.count("output_primitives_analysed", len(outs), floor=1)
+    chk.count("output_primitives_analysed", len(outs), floor=1 if str(prog.config.get("DEBUG", "4")) != "0" else None)
     chk.count("loops_with_progress_obligation", nloops, floor=5)
     chk.count("undecided_obligations", nund)
     chk.analysed = {"units": ["strings.c", "msgs.c"], "functions": [g.name for g in fns] + [g.name for g in outs]}
